@@ -34,6 +34,8 @@ pub open spec fn enumerates_outputs(s: Seq<OutputData>, m: Map<OutKey, OutputDat
 // storage (cursor) order is a function of the table's content
 pub uninterp spec fn seq_of_outputs(m: Map<OutKey, OutputData>) -> Seq<OutputData>;
 pub uninterp spec fn seq_of_log(m: Map<(Identifier, u32), TxLogEntry>) -> Seq<TxLogEntry>;
+// the account mappings in storage order (a function of the table, like the two above)
+pub uninterp spec fn seq_of_accounts(m: Map<Seq<char>, AcctPathMapping>) -> Seq<AcctPathMapping>;
 // (axiom) the storage-order enumeration lists every record exactly once
 #[verifier::external_body]
 pub proof fn axiom_seq_of_log(m: Map<(Identifier, u32), TxLogEntry>) ensures enumerates_log(seq_of_log(m), m) { }
@@ -173,7 +175,8 @@ pub trait WalletBackend<'ck, C, K> where C: NodeClient + 'ck, K: Keychain + 'ck 
     // every stored label -> path mapping, in storage order
     fn acct_path_iter<'a>(&'a self) -> (r: VIter<AcctPathMapping>)
         ensures forall|i: int| 0 <= i < r@.len() ==> self.state().accounts.dom().contains((#[trigger] r@[i]).label@) && self.state().accounts[r@[i].label@] == r@[i],
-            forall|l: Seq<char>| #[trigger] self.state().accounts.dom().contains(l) ==> exists|i: int| 0 <= i < r@.len() && r@[i] == self.state().accounts[l];
+            forall|l: Seq<char>| #[trigger] self.state().accounts.dom().contains(l) ==> exists|i: int| 0 <= i < r@.len() && r@[i] == self.state().accounts[l],
+            r@ == seq_of_accounts(self.state().accounts);
 
     // a write batch WITHOUT the keychain check (LMDBBackend::batch_no_mask: used where no key material is touched);
     // unlike batch(), it is handed out whatever the token
